@@ -379,6 +379,7 @@ func TestC13ManyResets(t *testing.T) {
 		kind := kind
 		t.Run(kind, func(t *testing.T) {
 			rapid.Check(t, func(t *rapid.T) {
+				decorrelate(t, kind)
 				cfg := genPCfg(t, kind, 300)
 				hb := rapid.SampledFrom([]int{10, 8, 6, 4}).Draw(t, "mrHashBits")
 				switch kind {
@@ -447,6 +448,7 @@ func TestC13(t *testing.T) {
 		kind := kind
 		t.Run(kind, func(t *testing.T) {
 			rapid.Check(t, func(t *rapid.T) {
+				decorrelate(t, kind)
 				c, x, h1State := genResetCase(t, kind)
 				if x == nil {
 					st.class("config-rejected:" + kind)
@@ -811,6 +813,7 @@ func TestC13Wrap(t *testing.T) {
 		kind := kind
 		t.Run(kind, func(t *testing.T) {
 			rapid.Check(t, func(t *rapid.T) {
+				decorrelate(t, kind)
 				c := genWrapCase(t, kind, 120, false, false, false)
 				// the prior use may run into reader faults; the stream after
 				// Reset is fault-free (C08 owns faults)
